@@ -232,7 +232,7 @@ impl C10 {
                     v.label("sensitivity:first-order-checked");
                     for (k, nm) in names.iter().enumerate() {
                         let exp = *an.grad.get(nm).unwrap_or(&0.0);
-                        if (g[k] - exp).abs() > 1e-10 * an.gscale.max(exp.abs()) + 1e-300 {
+                        if !((g[k] - exp).abs() <= 1e-10 * an.gscale.max(exp.abs()) + 1e-300) {
                             v.fail(
                                 if exp == 0.0 { "a sensitivity is reported to a quote that is not on the path (or under a wrong variable name)" } else { "first-order sensitivity is not +-cross/quote under fx_xxxyyy" },
                                 format!("{}: d {} / d {} = {:e}, expected {:e}", step, pair, nm, g[k], exp),
@@ -250,7 +250,7 @@ impl C10 {
                     for (k1, n1) in names.iter().enumerate() {
                         for (k2, n2) in names.iter().enumerate() {
                             let exp = *an.hess.get(&(n1.clone(), n2.clone())).unwrap_or(&0.0);
-                            if (h[[k1, k2]] - exp).abs() > 1e-10 * an.hscale.max(exp.abs()) + 1e-300 {
+                            if !((h[[k1, k2]] - exp).abs() <= 1e-10 * an.hscale.max(exp.abs()) + 1e-300) {
                                 v.fail("second-order sensitivity is not the matching second derivative", format!("{}: d2 {} / d {} d {} = {:e}, expected {:e}", step, pair, n1, n2, h[[k1, k2]], exp));
                                 return None;
                             }
